@@ -295,6 +295,27 @@ fn p_int_result_scope() {
     kani::cover!(!marked && ov != 0, "plain method, error");
     kani::cover!(marked && ov != 0, "marked method, error");
 }
+#[kani::proof]
+fn p_opt_owned_box() {
+    // Option<CBox<T>>: variant, address and payload arrive; what the callee hands back returns
+    // unchanged; and the vtable slot itself takes / returns the published C option type
+    let mut rec = rec0();
+    let ov = rec.out_variant;
+    let (some, v): (bool, u64) = kani::any();
+    let obj = trait_obj!(imp(&mut rec) as Shapes2);
+    let slot_ty = core::any::type_name_of_val(&obj.get_vtbl().opt_box());
+    let mentions_coption = { let n = slot_ty.as_bytes(); let pat = b"COption"; let mut hit = false; let mut i = 0; while i + 7 <= n.len() { let mut k = 0; let mut eq = true; while k < 7 { if n[i + k] != pat[k] { eq = false; } k += 1; } if eq { hit = true; } i += 1; } hit };
+    assert!(mentions_coption, "C02 an Option<CBox<T>> argument / result crosses as the C option type (tag + payload), not as a bare Rust Option");
+    let b = cglue::boxed::CBox::from(v);
+    let addr = &*b as *const u64 as usize;
+    let back = obj.opt_box(if some { Some(b) } else { core::mem::forget(b); None });
+    core::mem::forget(obj);
+    assert!(rec.calls == 1 && rec.tag == 33 && rec.variant == some as u8, "C02 Option<CBox<T>> arrives with the same variant");
+    if some { assert!(rec.ptr == addr && rec.payload == v, "C02 the box arrives with the same instance and contents"); }
+    match back { Some(x) => { assert!(some && ov == 1 && &*x as *const u64 as usize == addr && *x == v, "C02 the box handed back returns unchanged"); } None => assert!(!(some && ov == 1), "C02 None returns unchanged") }
+    kani::cover!(some && ov == 1, "box in, box out");
+    kani::cover!(!some, "None in");
+}
 //@ prefix=p_npo kind=property clause=forwarded (null-pointer-optimised) options — Option<NonZeroU32>, Option<&mut T> in / Option<&T> out, Option<extern "C" fn> — and Result<(),E>: variant, payload and address arrive and return unchanged; writes through Option<&mut T> are visible
 extern "C" fn twice(x: u32) -> u32 { x.wrapping_mul(2) }
 #[kani::proof]
